@@ -106,6 +106,9 @@ def run(P, R, tier, cfg):
             n_mt += 1
             val = f.sym_rvalue(s[4]) if j >= 0 else ("unknown",)
             ok = any(_gt_guard(c, p, lambda x: _same(x, val), lambda x: A.field_of(x, "max_timestamp", WG)) for (c, p) in A.guard_conditions(f, bb))
+            v0 = strip(val)
+            if not ok and v0[0] == "call" and v0[1].rsplit("::", 1)[-1] == "max" and len(v0[2]) == 2 and any(A.field_of(a, "max_timestamp", WG) for a in v0[2]):
+                ok = True       # `self.max_timestamp = self.max_timestamp.max(t)`: monotone by construction
             if ok:
                 R.hold("a", "store max_timestamp in %s" % f.name, "dominated by event_time > max_timestamp", f, s[0])
             else:
@@ -120,16 +123,21 @@ def run(P, R, tier, cfg):
 
     # process_event: max update then generator on every path
     pe = P.one(WG + "::process_event")
-    gen_calls = [c for c in pe.calls() if c.resolved and c.resolved in P.fns and A.stores_to_field(P.fns[c.resolved], "current_watermark", WG)]
+    gen_calls = [c for c in pe.calls() if c.resolved and c.resolved in P.fns and A.stores_to_field(P.inlined(P.fns[c.resolved]), "current_watermark", WG)]
     if gen_calls and A.always_calls_before_return(pe, [c.bb for c in gen_calls]):
         R.hold("b", "process_event always reaches the watermark generator", fn=pe)
-        gen = P.fns[gen_calls[0].resolved]
+        gen = P.inlined(P.fns[gen_calls[0].resolved])
     else:
         R.violate("b", "process_event:generator-not-on-all-paths", "process_event has a path to return that skips the watermark generator", pe)
         gen = P.fn(WG + "::maybe_generate_watermark")
     st = A.stores_to_field(pe, "max_timestamp", WG)
     if st:
         val = fmt_sym(pe.sym_rvalue(st[0][2][4]))
+        v1 = strip(pe.sym_rvalue(st[0][2][4]))
+        if v1[0] == "call" and v1[1].rsplit("::", 1)[-1] == "max" and len(v1[2]) == 2:
+            others = [fmt_sym(a) for a in v1[2] if not A.field_of(a, "max_timestamp", WG)]
+            if len(others) == 1:
+                val = others[0]
         if val.endswith("metadata.timestamp") and "event" in val:
             R.hold("b", "max_timestamp candidate is the event timestamp", val, pe)
         else:
